@@ -266,3 +266,79 @@ def _kernwf(g, scale):
             off = r.choice([1, 63, 64, 65, 4096, 32768, 65535, r.randrange(1, CH)])
             g.emit("kernwf addOffsetLo %s - %d" % (ca, off))
             g.emit("kernwf addOffsetHi %s - %d" % (ca, off))
+
+
+def interval_set(r, lo, n, pieces):
+    """exactly n values starting at lo, split into at most `pieces` blocks separated by small gaps"""
+    pieces = max(1, min(pieces, n))
+    sizes = [n // pieces] * pieces
+    for i in range(n % pieces):
+        sizes[i] += 1
+    out = []
+    pos = lo
+    for ln in sizes:
+        out.append((pos, pos + ln - 1))
+        pos += ln + r.choice([2, 3, 9])
+    assert out[-1][1] < CH and sum(b - a + 1 for a, b in out) == n
+    return out
+
+
+def ivs_union(a, b):
+    out = []
+    for x, y in sorted(a + b):
+        if out and out[-1][1] + 1 >= x:
+            out[-1] = (out[-1][0], max(out[-1][1], y))
+        else:
+            out.append((x, y))
+    return out
+
+
+@suite("kernthresh")
+def _kernthresh(g, scale):
+    """operands constructed so that the RESULT has cardinality exactly 4095 / 4096 / 4097 (the array<->bitmap threshold)
+    or is exactly full / empty, for every kind pairing and both forms: the re-typing decision after each kernel"""
+    r = g.r
+    for _ in range(int(14 * scale)):
+        T = r.choice([4095, 4096, 4096, 4097])
+        k = r.choice([1, 5, 300, 5000])
+        base = r.choice([0, 7, 1000, 20000])
+        k = min(k, 5000)
+        R = interval_set(r, base, T, r.choice([1, 3, 40]))            # the target result
+        hiR = R[-1][1]
+        D = interval_set(r, hiR + 20, k, r.choice([1, 2, 10]))         # disjoint from R, above it
+        E = interval_set(r, D[-1][1] + 20, r.choice([1, 50, 4000]), r.choice([1, 4]))
+        cases = []
+        # andNot: (R ∪ D) \ (D ∪ E) = R
+        cases.append((["andNot", "iandNot"], ivs_union(R, D), ivs_union(D, E)))
+        # and: (R ∪ D) ∩ (R ∪ E) = R
+        cases.append((["and", "iand"], ivs_union(R, D), ivs_union(R, E)))
+        # or: two overlapping parts of R
+        cut = r.randrange(1, max(2, len(R)))
+        cases.append((["or", "ior", "lazyOR", "lazyIOR"], R[:cut] + R[cut:][:1], R[cut:] if R[cut:] else R))
+        # xor: (R1 ∪ D) xor (R2 ∪ D) = R1 ∪ R2 = R
+        cases.append((["xor", "ixor"], ivs_union(R[:cut], D), ivs_union(R[cut:], D) if R[cut:] else D))
+        for ops, a, b in cases:
+            for ka in ("A", "B", "R"):
+                ca = wf_render(g, a, ka)
+                if ca is None:
+                    continue
+                for kb in ("A", "B", "R"):
+                    cb = wf_render(g, b, kb)
+                    if cb is None:
+                        continue
+                    for op in ops:
+                        if not op.startswith("lazy"):       # lazy kernels may defer the cardinality (repaired later)
+                            g.emit("kernwf %s %s %s" % (op, ca, cb))
+                        g.emit("kern %s %s %s" % (op, ca, cb))
+                        g.count("kthresh:%s:%d" % (op, T))
+        # range kernels landing exactly on the threshold
+        for ka in ("A", "B", "R"):
+            ca = wf_render(g, ivs_union(R, D), ka)
+            if ca is not None and D:
+                g.emit("kernwf iremoveRange %s - %d %d" % (ca, D[0][0], D[-1][1] + 1))
+                g.emit("kernwf inot %s - %d %d" % (ca, D[0][0], D[-1][1] + 1))
+                g.emit("kernwf not %s - %d %d" % (ca, D[0][0], D[-1][1] + 1))
+            cb = wf_render(g, R[:-1] if len(R) > 1 else R, ka)
+            if cb is not None and len(R) > 1:
+                g.emit("kernwf iaddRange %s - %d %d" % (cb, R[-1][0], R[-1][1] + 1))
+                g.emit("kernwf inot %s - %d %d" % (cb, R[-1][0], R[-1][1] + 1))
